@@ -540,6 +540,14 @@ func verifyFunc(prog *ssa.Program, spkg *ssa.Package, contracts *Contracts, fn *
 					tr.oblige("post", "post/"+tr.topKey+"/"+name+"~excl"+suffix, implies(h, g), r.pos, clauseProps(cl, tr.topProps), cl.Src+"   [under the exclusion: "+ex.Src+"]")
 				}
 			}
+			// `chained`: a later postcondition may rely on the earlier ones (each is still an obligation of its own)
+			if c.Chained && cl.Kind == "ensures" {
+				if ex := exclusionOf(c, cl); ex != nil {
+					tr.assume(implies(fc.evalClause(env, ex, tr.topKey), g))
+				} else {
+					tr.assume(g)
+				}
+			}
 		}
 		// frame
 		entryEnv := fc.envAt(fc.entrySt)
@@ -849,4 +857,13 @@ func machineryPartition(cn string) bool {
 		}
 	}
 	return false
+}
+
+func exclusionOf(c *FuncContract, cl *Clause) *Clause {
+	for _, ex := range c.Clauses {
+		if ex.Kind == "excluding" && ex.Name == cl.Name && cl.Name != "" {
+			return ex
+		}
+	}
+	return nil
 }
